@@ -19,7 +19,8 @@ FAMILIES = ["long_line", "many_lines", "line_comments", "block_comments", "plus_
             "string_literals", "quoted_idents", "backtick_idents", "numbers", "placeholders", "dollar_quoted", "dollar_tags_unclosed", "casts",
             "json_ops", "subscripts", "semicolons", "dots", "or_like", "order_by_list", "crlf_lines", "unicode_idents",
             # malformed inputs (error paths and recovery must be near-linear too)
-            "union_dangling", "broken_statements", "stmts_last_broken", "keyword_soup"]
+            "union_dangling", "broken_statements", "stmts_last_broken", "keyword_soup",
+            "union_long", "long_qualified_name"]
 ENTRIES = ["tokenize", "tokenize_ctx", "parse", "parse_ctx", "validate", "recovery", "sql", "format", "formatter", "scan", "scansql", "extract", "lint"]
 CPU_RATIO_LIMIT = 9.0     # CPU time for a 4x larger input (min of repeats), judged only when the smallest run takes >= 20 ms
 EXP_LIMIT = 1.5
